@@ -459,13 +459,57 @@ func checkC04(c *Ctx) {
 			tagCell, _ = call.Call.Args[1].(*ssa.Alloc)
 		}
 	}
+	// …or the first string result of a header-parsing helper that fills it
+	// from the first ExpectAtom (readCommandName(dec) (tag, name, …))
+	var tagExtract *ssa.Extract
 	if tagCell == nil {
+		for _, i := range readCommand.Blocks[0].Instrs {
+			call, ok := i.(*ssa.Call)
+			if !ok || tagExtract != nil {
+				continue
+			}
+			h := staticCallee(call)
+			if h == nil || !inModule(h) || h.Blocks == nil || h.Signature.Results().Len() < 2 {
+				continue
+			}
+			var hCell *ssa.Alloc
+			for _, j := range h.Blocks[0].Instrs {
+				if c2, ok := j.(*ssa.Call); ok && hCell == nil && isExtMethod(calleeObj(c2), modPath+"/internal/imapwire", "Decoder", "ExpectAtom") {
+					hCell, _ = c2.Call.Args[1].(*ssa.Alloc)
+				}
+			}
+			if hCell == nil {
+				continue
+			}
+			// which result carries the cell on the success returns?
+			idx := -1
+			for _, r := range returnsOf(h) {
+				for k, rv := range r.Results {
+					if u, ok := unspill(rv).(*ssa.UnOp); ok && u.Op == token.MUL && u.X == ssa.Value(hCell) {
+						idx = k
+					}
+				}
+			}
+			if idx < 0 {
+				continue
+			}
+			for _, ref := range *call.Referrers() {
+				if ex, ok := ref.(*ssa.Extract); ok && ex.Index == idx {
+					tagExtract = ex
+				}
+			}
+		}
+	}
+	if tagCell == nil && tagExtract == nil {
 		c.unresolvedRoot("tag variable of readCommand")
 		return
 	}
 	isTagRC := func(v ssa.Value) bool {
+		if tagExtract != nil && v == ssa.Value(tagExtract) {
+			return true
+		}
 		u, ok := v.(*ssa.UnOp)
-		return ok && u.Op == token.MUL && u.X == tagCell
+		return ok && u.Op == token.MUL && tagCell != nil && u.X == ssa.Value(tagCell)
 	}
 
 	// handlers that receive the tag
@@ -489,6 +533,81 @@ func checkC04(c *Ctx) {
 			}
 		}
 	})
+	// the completion epilogue may live in a function of its own
+	// (`return c.writeCommandCompletion(tag, name, err, sendOK)`): it is
+	// checked as the place where readCommand's own completion is written,
+	// and counts as one tagged writer in readCommand
+	var epilogue *ssa.Function
+	for _, r := range returnsOf(readCommand) {
+		if len(r.Results) != 1 {
+			continue
+		}
+		if call, ok := unspill(r.Results[0]).(*ssa.Call); ok {
+			if cal := staticCallee(call); cal != nil {
+				if _, isH := tagParam[cal]; isH {
+					if _, isTW := tw[cal]; !isTW {
+						epilogue = cal
+					}
+				}
+			}
+		}
+	}
+	if epilogue != nil {
+		ep := epilogue
+		prm := ep.Params[tagParam[ep]]
+		delete(tagParam, ep)
+		completionCheck(c, "C04.a", ep, tw, func(v ssa.Value) bool { return v == ssa.Value(prm) }, func(fs facts) (bool, string) {
+			// `return nil` without writing: only when the boolean parameter that
+			// carries "the generic OK is wanted" is false, and every caller
+			// passes a merge of constants for it
+			for f := range fs {
+				if !strings.HasPrefix(f, "false:") {
+					continue
+				}
+				nm := strings.TrimPrefix(f, "false:")
+				for k, q := range ep.Params {
+					if q.Name() != nm {
+						continue
+					}
+					okArgs := true
+					for _, site := range callSitesOf(p, ep) {
+						a := site.Common().Args[k]
+						if ph, ok := a.(*ssa.Phi); ok {
+							for _, e := range ph.Edges {
+								if _, isC := e.(*ssa.Const); !isC {
+									okArgs = false
+								}
+							}
+						} else if _, isC := a.(*ssa.Const); !isC {
+							okArgs = false
+						}
+					}
+					// …and the handler's error is known to be nil here
+					errNil := false
+					for _, e := range ep.Params {
+						if isErrorType(e.Type()) && fs.has("nil:"+e.Name()) {
+							errNil = true
+						}
+					}
+					if okArgs && errNil {
+						return true, "the generic OK is suppressed (self-completing handler succeeded)"
+					}
+				}
+			}
+			return false, ""
+		})
+		tw2 := map[*ssa.Function]int{}
+		for f, k := range tw {
+			tw2[f] = k
+		}
+		for k, q := range ep.Params {
+			if q == prm {
+				tw2[ep] = k
+			}
+		}
+		tw = tw2
+		c.note("readCommand's completion epilogue lives in %s: checked there, counted as one tagged writer in readCommand", fnKey(ep))
+	}
 	var handlers []*ssa.Function
 	for h := range tagParam {
 		handlers = append(handlers, h)
@@ -1463,20 +1582,29 @@ func ruleDiscardSkipsLiterals(c *Ctx, rule string) {
 	}
 	counted, looped := false, false
 	// the counted discard may sit in a helper: then the helper's call site must be in the loop
-	inLoopOfFn := func(g *ssa.Function, b *ssa.BasicBlock) bool {
+	var inLoopD func(g *ssa.Function, b *ssa.BasicBlock, d int) bool
+	inLoopD = func(g *ssa.Function, b *ssa.BasicBlock, d int) bool {
 		if g == fn {
 			return reaches2(b, b)
 		}
 		if reaches2(b, b) {
 			return true
 		}
+		if d == 0 {
+			return false
+		}
 		for _, site := range callSitesOf(p, g) {
-			if site.Parent() == fn && reaches2(site.Block(), site.Block()) {
+			par := site.Parent()
+			if par == nil || (par != fn && !isHelperOf(par, fn, 2)) {
+				continue
+			}
+			if inLoopD(par, site.Block(), d-1) {
 				return true
 			}
 		}
 		return false
 	}
+	inLoopOfFn := func(g *ssa.Function, b *ssa.BasicBlock) bool { return inLoopD(g, b, 3) }
 	for _, g := range helperClosure(fn, 2) {
 		g := g
 		allInstrs(g, func(i ssa.Instruction) {
